@@ -36,8 +36,29 @@ class G:
         self.calls = False
 
     # ---------------------------------------------------------------- loop headers
-    def header(self, allow_neg=True, avoid=()):
-        """(lo, hi, step) expressions"""
+    def header(self, allow_neg=True, avoid=(), idxvars=()):
+        """(lo, hi, step) expressions; idxvars: loop variables (own / other loop's) that may index an array
+        element used as a bound (ragged nests: do j = 1, nlev(i))"""
+        r = self.r
+        lo, hi, step = self.header0(allow_neg)
+        if r.random() < 0.22:
+            ix = r.choice([V(x) for x in idxvars] * 2 + [V("n"), L(2)]) if idxvars else r.choice([V("n"), L(2), V("m")])
+            el = ("idx", r.choice(ARR1), [ix])
+            c = r.random()
+            if c < 0.3:
+                el = ("intr", r.choice(["IMin", "IMax"]), [el, r.choice([V("n"), L(3)])])
+            elif c < 0.4:
+                el = ("bin", "Add", el, L(1))
+            c = r.random()
+            if c < 0.6:
+                hi = el
+            elif c < 0.85:
+                lo = el
+            else:
+                step = ("intr", "IMax", [el, L(1)])
+        return lo, hi, step
+
+    def header0(self, allow_neg=True):
         r = self.r
         c = r.random()
         if c < 0.30:
@@ -151,7 +172,7 @@ class G:
                 el = self.body(vs, arrs1, arrs2, scal, 1, 0.0, None, consistent) if r.random() < 0.3 else []
                 out.append(("if", self.cond(vs, arrs1, arrs2, scal, consistent), th, el))
             elif inner:
-                lo, hi, st = self.header()
+                lo, hi, st = self.header(idxvars=list(vs) + [inner])
                 out.append(("do", inner, lo, hi, st, self.body(vs + [inner], arrs1, arrs2, scal, r.randint(1, 2), 0.0, None, consistent)))
             else:
                 t = self.aref(vs, arrs1, arrs2, consistent)
@@ -198,7 +219,7 @@ class G:
         r = self.r
         v1 = r.choice(["i", "i", "j"])
         v2 = v1 if r.random() < 0.65 else ("j" if v1 == "i" else "i")
-        lo, hi, st = self.header()
+        lo, hi, st = self.header(idxvars=[v1])
         c = r.random()
         if c < 0.78:
             h2 = (lo, hi, st)
@@ -251,8 +272,8 @@ class G:
     def nest_prog(self, private=False):
         r = self.r
         o, i_ = r.choice([("j", "i"), ("i", "j")])
-        lo1, hi1, st1 = self.header()
-        lo2, hi2, st2 = self.header()
+        lo1, hi1, st1 = self.header(idxvars=[i_, o])
+        lo2, hi2, st2 = self.header(idxvars=[o, o, i_])
         c = r.random()
         if c < 0.08:
             hi2 = V(o)                                              # inner bound uses outer variable
@@ -285,7 +306,7 @@ class G:
     def chunk_prog(self):
         r = self.r
         v = r.choice(["i", "j"])
-        lo, hi, st = self.header()
+        lo, hi, st = self.header(idxvars=[v])
         arrs1 = r.sample(ARR1, r.choice([1, 2]))
         scal = r.sample(SCAL, r.choice([0, 1]))
         body = self.body([v], arrs1, [], scal, r.randint(1, 3), r.choice([0, 0, 0, 0.1]), "k" if r.random() < 0.2 else None)
@@ -298,7 +319,7 @@ class G:
     def hoist_prog(self):
         r = self.r
         v = r.choice(["i", "j"])
-        lo, hi, st = self.header()
+        lo, hi, st = self.header(idxvars=[v])
         arrs1 = r.sample(ARR1, 2)
         scal = r.sample(SCAL, 2)
         body = self.body([v], arrs1, [], scal, r.randint(1, 3), r.choice([0, 0, 0.15]), None)
@@ -317,7 +338,7 @@ class G:
             body.insert(r.randint(0, len(body)), ("call", r.choice(["bump", "ext"]), [r.choice([V(scal[0]), V(scal[1]), ("idx", arrs1[0], [V(v)])])]))
         loop = ("do", v, lo, hi, st, body)
         if r.random() < 0.2:
-            lo2, hi2, st2 = self.header()
+            lo2, hi2, st2 = self.header(idxvars=["k", v])
             loop = ("do", "k", lo2, hi2, st2, [loop])
         return self.wrap([loop])
 
@@ -334,7 +355,7 @@ class G:
             if c < 0.4:
                 return ("intr", r.choice(["IMin", "IMax"]), [V("n"), ("idx", arrs1[0], [L(2)])])
             if c < 0.5:
-                return ("idx", arrs1[0], [L(r.choice([1, 2]))])
+                return ("idx", arrs1[0], [r.choice([L(1), L(2), V("n"), V(v)])])
             if c < 0.6:
                 return ("bin", "Mul", V("m"), L(2))
             if c < 0.7:
@@ -354,7 +375,7 @@ class G:
     def induction_prog(self):
         r = self.r
         v = r.choice(["i", "j"])
-        lo, hi, st = self.header()
+        lo, hi, st = self.header(idxvars=[v])
         arrs1 = r.sample(ARR1, 2)
         ind = r.sample(SCAL, 2)
         if r.random() < 0.12:
